@@ -20,7 +20,10 @@ Anything else FAILS CLOSED (GenError).  The lock macros themselves must be the p
 hwloc_topology_destroy).  Writes lean/Hw/Gen/ComponentsIR.lean deterministically (definitions only, so that the
 driver can still be built and search the GENERATED programs when they differ from the model); the two obligations
 `C17_gen_ir_matches_init/_fini : Gen.xProg = Model.xProg := by decide` live in lean/Hw/Props/C17.lean.
-Returns the number of generated obligations (2)."""
+Also extracted (same file): the numeric topology flags, the guarded step sequences of the tail of hwloc_topology_load and
+of hwloc_topology_refresh, and the table of every core function that calls a cache-(re)building function (with whether the call
+is guarded by the validity flag) — obligations C17_gen_flags_match / _load_seq_matches / _refresh_seq_matches /
+_lazy_callers_match.  Returns the number of generated obligations (6)."""
 import os, re
 from common import *
 
@@ -217,21 +220,191 @@ def _strip_all_comments(text):
     return re.sub(r"//[^\n]*", " ", text)
 
 
+# ---------------------------------------------------------------------------------------------- load tail / refresh
+
+FLAG_NAMES = ["HWLOC_TOPOLOGY_FLAG_RESTRICT_TO_CPUBINDING", "HWLOC_TOPOLOGY_FLAG_RESTRICT_TO_MEMBINDING",
+              "HWLOC_TOPOLOGY_FLAG_NO_DISTANCES", "HWLOC_TOPOLOGY_FLAG_NO_MEMATTRS", "HWLOC_TOPOLOGY_FLAG_NO_CPUKINDS"]
+STEP_OF_CALL = {"hwloc_internal_cpukinds_rank": "rankKinds",
+                "hwloc_internal_distances_invalidate_cached_objs": "invalidateDists",
+                "hwloc_internal_distances_refresh": "refreshDists",
+                "hwloc_internal_memattrs_need_refresh": "needRefreshAttrs",
+                "hwloc_internal_memattrs_refresh": "refreshAttrs",
+                "hwloc_topology_refresh": "refreshAll"}
+
+
+def flag_values():
+    d = os.path.join(BUILD, "gen")
+    os.makedirs(d, exist_ok=True)
+    src, exe = os.path.join(d, "conc_consts.c"), os.path.join(d, "conc_consts")
+    with open(src, "w") as f:
+        f.write('#include <stdio.h>\n#include "hwloc.h"\nint main(void) {\n')
+        for n in FLAG_NAMES:
+            f.write('  printf("%s %%lu\\n", (unsigned long)(%s));\n' % (n, n))
+        f.write("  return 0;\n}\n")
+    r = run(["gcc", "-w"] + config_include_dirs() + [src, "-o", exe])
+    if r.returncode != 0:
+        raise GenError("conc translator: constants printer does not compile:\n" + r.stdout[-1500:])
+    vals = {}
+    for line in run([exe]).stdout.split("\n"):
+        t = line.split()
+        if len(t) == 2:
+            vals[t[0]] = int(t[1])
+    for n in FLAG_NAMES:
+        if n not in vals:
+            raise GenError("conc translator: no value for " + n)
+    return vals
+
+
+def _c_function(src, rettype, name):
+    m = re.findall(r"^" + rettype + r"\s*\n" + name + r"\s*\(([^;{]*?)\)\s*\n\{\n(.*?)\n\}\n", src, flags=re.S | re.M)
+    if len(m) != 1:
+        raise GenError("conc translator: expected exactly one definition of %s, found %d" % (name, len(m)))
+    return m[0][1]
+
+
+def _drop_cpp(text):
+    text = _strip_all_comments(text)
+    return "\n".join(l for l in text.split("\n") if not l.strip().startswith("#"))
+
+
+def _mask(expr, vals):
+    """`HWLOC_TOPOLOGY_FLAG_A` or `(A|B)` -> number"""
+    names = [x.strip() for x in expr.strip().strip("()").split("|")]
+    v = 0
+    for n in names:
+        if n not in vals:
+            raise GenError("conc translator: unknown flag in a guard: " + expr)
+        v |= vals[n]
+    return v
+
+
+def _calls_of(stmt):
+    return [c for c in re.findall(r"\b(hwloc_\w+)\s*\(", stmt) if c in STEP_OF_CALL]
+
+
+def _seq(body, vals, allow):
+    """guarded step sequence of a function body (top-level statements only)"""
+    out = []
+    for st in _split(_drop_cpp(body)):
+        flat = re.sub(r"\s+", " ", st)
+        m = re.fullmatch(r"if \(!\(topology->flags & (HWLOC_TOPOLOGY_FLAG_\w+)\)\) (.*)", flat)
+        if m:
+            mask, inner = _mask(m.group(1), vals), m.group(2)
+            inner = inner[1:-1] if inner.startswith("{") and inner.endswith("}") else inner
+            for sub in _split(inner if inner.rstrip().endswith((";", "}")) else inner + ";"):
+                calls = _calls_of(sub)
+                f = re.sub(r"\s+", " ", sub)
+                if len(calls) == 1 and re.fullmatch(calls[0] + r"\(topology\);", f):
+                    out.append((STEP_OF_CALL[calls[0]], mask, False))
+                elif calls or not any(re.fullmatch(a, f) for a in allow):
+                    raise GenError("conc translator: unexpected statement under a NO_* guard: " + f[:120])
+            continue
+        m = re.fullmatch(r"if \(topology->flags & (HWLOC_TOPOLOGY_FLAG_RESTRICT_TO_(CPU|MEM)BINDING)\) \{(.*)\}", flat)
+        if m:
+            inner = m.group(3)
+            want = "hwloc_get_cpubind" if m.group(2) == "CPU" else "hwloc_get_membind"
+            if inner.count("hwloc_topology_restrict(") != 1 or want not in inner or _calls_of(inner):
+                raise GenError("conc translator: unexpected restrict-to-binding block: " + flat[:120])
+            out.append(("restrictCpubind" if m.group(2) == "CPU" else "restrictMembind", _mask(m.group(1), vals), True))
+            continue
+        m = re.fullmatch(r"if \(topology->flags & (\([A-Z_| ]+\))\) hwloc_topology_refresh\(topology\);", flat)
+        if m:
+            out.append(("refreshAll", _mask(m.group(1), vals), True))
+            continue
+        calls = _calls_of(flat)
+        if len(calls) == 1 and re.fullmatch(calls[0] + r"\(topology\);", flat):          # unguarded step
+            out.append((STEP_OF_CALL[calls[0]], 0, False))
+            continue
+        if re.fullmatch(r"topology->state \|= HWLOC_TOPOLOGY_STATE_IS_LOADED;", flat):
+            out.append(("setLoaded", 0, False))
+            continue
+        if _calls_of(flat) or "hwloc_topology_restrict" in flat or not any(re.fullmatch(a, flat) for a in allow):
+            raise GenError("conc translator: unexpected statement in the cache-relevant part: " + flat[:140])
+    return out
+
+
+def load_and_refresh_seqs(vals):
+    topo = open(os.path.join(REPO, "hwloc", "topology.c")).read()
+    load = _c_function(topo, "int", "hwloc_topology_load")
+    k = load.find("err = hwloc_discover(topology, &dstatus);")
+    e = load.find("\n  return 0;", k)
+    if k < 0 or e < 0:
+        raise GenError("conc translator: cannot find the tail of hwloc_topology_load")
+    allow_load = [r"err = hwloc_discover\(topology, &dstatus\);", r"if \(err < 0\) goto out;",
+                  r"if \(getenv\(\"HWLOC_DEBUG_CHECK\"\)\) hwloc_topology_check\(topology\);",
+                  r"int force_memtiers = \(getenv\(\"HWLOC_MEMTIERS_REFRESH\"\) != NULL\);",
+                  r"if \(force_memtiers \|\| strcmp\(topology->backends->component->name, \"xml\"\)\) hwloc_internal_memattrs_guess_memory_tiers\(topology, force_memtiers\);",
+                  r"topology->state &= ~HWLOC_TOPOLOGY_STATE_IS_LOADING;",
+                  r"if \(topology->backend_phases & HWLOC_DISC_PHASE_TWEAK\) \{ dstatus\.phase = HWLOC_DISC_PHASE_TWEAK; hwloc_discover_by_phase\(topology, &dstatus, \"TWEAK\"\); \}"]
+    lseq = _seq(load[k:e], vals, allow_load)
+    refresh = _c_function(topo, "int", "hwloc_topology_refresh")
+    allow_refresh = [r"if \(topology->adopted_shmem_addr\) \{ errno = EPERM; return -1; \}", r"return 0;"]
+    rseq = _seq(refresh, vals, allow_refresh)
+    return lseq, rseq
+
+
+# ---------------------------------------------------------------------------------------------- who may refresh lazily
+
+LAZY_FILES = ["memattrs.c", "distances.c", "cpukinds.c", "topology-xml.c", "topology.c", "diff.c", "shmem.c", "traversal.c",
+              "bind.c", "bitmap.c", "topology-synthetic.c", "misc.c", "pci-common.c"]
+LAZY_CALLEES = ["hwloc__imattr_refresh", "hwloc_internal_memattrs_refresh", "hwloc_internal_distances_refresh",
+                "hwloc_internal_distances_refresh_one", "hwloc_internal_cpukinds_rank", "hwloc_topology_refresh"]
+
+
+def lazy_callers():
+    """every function of the core files that calls one of the cache-(re)building functions, in source order, with whether
+    the call is guarded by the validity flag: (file:function, callee, guarded)"""
+    out = []
+    for fn in LAZY_FILES:
+        src = _strip_all_comments(open(os.path.join(REPO, "hwloc", fn)).read())
+        for m in re.finditer(r"^[^\n(){};#]*?\b(\w+)\s*\(([^;{}]*?)\)\s*\n\{\n(.*?)\n\}\n", src, flags=re.S | re.M):
+            name, body = m.group(1), m.group(3)
+            lines = [l.strip() for l in body.split("\n") if l.strip()]
+            for i, l in enumerate(lines):
+                for c in LAZY_CALLEES:
+                    if re.search(r"\b" + c + r"\s*\(", l):
+                        prev = " ".join(lines[max(0, i - 2):i + 1])
+                        guarded = False
+                        if c == "hwloc__imattr_refresh":
+                            a = re.search(r"hwloc__imattr_refresh\s*\(\s*topology\s*,\s*(\w+)\s*\)", l)
+                            if not a:
+                                raise GenError("conc translator: unexpected hwloc__imattr_refresh call in %s: %s" % (name, l))
+                            v = a.group(1)
+                            guarded = bool(re.search(r"if \((?:[^;]*&& )?!\(" + v + r"->iflags & HWLOC_IMATTR_FLAG_CACHE_VALID\)\)\s*(?:hwloc__imattr_refresh|$)", " ".join(lines[max(0, i - 1):i + 1]))
+                                           or re.search(r"if \(" + v + r"->iflags & HWLOC_IMATTR_FLAG_CACHE_VALID\) continue;", prev))
+                        out.append(("%s:%s" % (fn, name), c, guarded))
+    return out
+
+
 def lean_prog(p):
     return "[" + ", ".join("." + i if " " not in i else "." + i for i in p) + "]"
 
 
 def generate():
     progs = extract()
+    vals = flag_values()
+    lseq, rseq = load_and_refresh_seqs(vals)
+    lazy = lazy_callers()
+    seq = lambda q: "[" + ", ".join("(.%s, %d, %s)" % (n, m, "true" if b else "false") for n, m, b in q) + "]"
     L = ["/- GENERATED by tools/gen_conc.py from hwloc/components.c (hwloc_components_init / hwloc_components_fini) — do not edit.",
          "   Definitions only: the obligations `Gen = Model` are in Hw/Props/C17.lean. -/",
          "import Hw.Io.Conc", "namespace Hw.Gen.ComponentsIR", "open Hw.Conc.Reg", "",
          "def initProg : Prog := " + lean_prog(progs["init"]),
          "def finiProg : Prog := " + lean_prog(progs["fini"]),
+         "",
+         "/-- topology flags as evaluated by the C compiler (include/hwloc.h) -/",
+         "def flags : List Nat := [%s]" % ", ".join(str(vals[n]) for n in FLAG_NAMES),
+         "/-- the cache-relevant statements of hwloc_topology_load after hwloc_discover, with their flag guards -/",
+         "def loadSeq : Hw.Conc.LoadSeq := " + seq(lseq),
+         "/-- hwloc_topology_refresh -/",
+         "def refreshSeq : Hw.Conc.LoadSeq := " + seq(rseq),
+         "/-- every function of the core files calling a cache-(re)building function: (file:function, callee, guarded by the validity flag) -/",
+         "def lazyCallers : List (String × String × Bool) := [",
+         ",\n".join('  ("%s", "%s", %s)' % (a, b, "true" if g else "false") for a, b, g in lazy) + "]",
          "", "end Hw.Gen.ComponentsIR", ""]
     import gen_tables
     gen_tables.write_if_changed(OUT, "\n".join(L))
-    return 2
+    return 6
 
 
 if __name__ == "__main__":
